@@ -30,9 +30,10 @@ DTYPES = ("float32", "float64", "complex128")
 class Dat:
     """Deterministic data in a requested dtype (tables of vmc.values; ``off`` = VERIF_SEED rotation)."""
 
-    def __init__(self, dtype, off=0):
+    def __init__(self, dtype, off=0, scale=1.0):
         self.dtype = np.dtype(dtype)
         self.off = int(off)
+        self.scale = float(scale)  # unit of the data (python float: does not promote); tiny units reach "guard" branches
 
     @property
     def ctx(self):
@@ -43,7 +44,7 @@ class Dat:
         x = V.generic(shape, self.off + k, signed=signed)
         if self.dtype.kind == "c":
             x = x + 1j * V.generic(shape, self.off + k + 41, signed=True)
-        return np.ascontiguousarray(x.astype(self.dtype))
+        return np.ascontiguousarray((x * self.scale).astype(self.dtype))
 
     def pos(self, shape, k=0):
         return self.a(shape, k, signed=False)
